@@ -14,13 +14,13 @@ package framer
 //@   modifies nothing
 //@   ensures LEN: len(result) == len(data) + 2
 //@   ensures HDR: result[0] == len(data) % 256 && result[1] == len(data) / 256
-//@   ensures PAYLOAD: forall i int :: 0 <= i && i < len(data) ==> result[i+2] == old(data[i])
+//@   ensures PAYLOAD: forall j int :: 2 <= j && j < len(data) + 2 ==> result[j] == old(data[j-2])
 //@   ensures FRESH: fresh(result)
 
 //@ func (*framer).messageReady
 //@   tags C02 C07
 //@   safety
-//@   requires f != nil && held(f.bufLock) >= 1
+//@   requires HELD: f != nil && held(f.bufLock) >= 1
 //@   pure
 //@   ensures SHORT: len(f.buffer) < 2 ==> result.0 == 0 && !result.1
 //@   ensures SIZE: len(f.buffer) >= 2 ==> result.0 == f.buffer[0] + 256*f.buffer[1]
@@ -33,7 +33,8 @@ package framer
 //@   modifies f.buffer, mem(f.buffer), comp:Mem_uint8
 //@   atrelease LEN: len(f.buffer) == len(acq(f.buffer)) + len(buf)
 //@   atrelease KEEP: forall i int :: 0 <= i && i < len(acq(f.buffer)) ==> f.buffer[i] == acq(f.buffer[i])
-//@   atrelease NEW: forall i int :: 0 <= i && i < len(buf) ==> f.buffer[len(acq(f.buffer)) + i] == acq(buf[i])
+//@   atrelease NEW: forall j int :: len(acq(f.buffer)) <= j && j < len(acq(f.buffer)) + len(buf) ==> f.buffer[j] == acq(buf[j - len(acq(f.buffer))])
+//@   atrelease SEP: ref(acq(f.buffer)) != ref(buf) && len(buf) > 0 ==> ref(f.buffer) != ref(buf)
 //@   atrelease NOCLOBBER: forall j int :: 0 <= j && j < off(acq(f.buffer)) + len(acq(f.buffer)) ==> blk(acq(f.buffer), j) == acq(blk(f.buffer, j))
 
 //@ func (*framer).MessageReady
@@ -49,6 +50,6 @@ package framer
 //@   modifies f.buffer
 //@   atrelease NOTREADY: (len(acq(f.buffer)) < 2 || len(acq(f.buffer)) < acq(f.buffer[0]) + 256*acq(f.buffer[1]) + 2) ==> result.1 != nil && f.buffer == acq(f.buffer)
 //@   atrelease READY: (len(acq(f.buffer)) >= 2 && len(acq(f.buffer)) >= acq(f.buffer[0]) + 256*acq(f.buffer[1]) + 2) ==> result.1 == nil && len(result.0) == acq(f.buffer[0]) + 256*acq(f.buffer[1])
-//@   atrelease DATA: result.1 == nil ==> forall i int :: 0 <= i && i < len(result.0) ==> result.0[i] == acq(f.buffer[i+2])
-//@   atrelease REST: result.1 == nil ==> len(f.buffer) == len(acq(f.buffer)) - len(result.0) - 2 && forall i int :: 0 <= i && i < len(f.buffer) ==> f.buffer[i] == acq(f.buffer[i + len(result.0) + 2])
+//@   atrelease DATA: result.1 == nil ==> forall j int :: 2 <= j && j < len(result.0) + 2 ==> result.0[j-2] == acq(f.buffer[j])
+//@   atrelease REST: result.1 == nil ==> len(f.buffer) == len(acq(f.buffer)) - len(result.0) - 2 && forall j int :: len(result.0) + 2 <= j && j < len(acq(f.buffer)) ==> f.buffer[j - len(result.0) - 2] == acq(f.buffer[j])
 //@   atrelease ALIAS: result.1 == nil ==> ref(result.0) == ref(acq(f.buffer)) && off(result.0) == off(acq(f.buffer)) + 2 && ref(f.buffer) == ref(acq(f.buffer)) && off(f.buffer) == off(result.0) + len(result.0)
